@@ -3,7 +3,8 @@ def b_create_exact_node_int : CR.SrcW.Builder where
   key := "create_exact_node_int"
   kind := .node
   tag := "exact"
-  xsd := "integerExactOrIntervalGreaterZero"
+  xsd := "xs:positiveInteger"
+  path := []
   parent := ""
   attrs := []
   gattrs := []
